@@ -742,7 +742,7 @@ func handleRandomkey(params internal.HandlerFuncParams) ([]byte, error) {
 
 	key := params.Randomkey(params.Context)
 
-	return []byte(fmt.Sprintf("+%v\r\n", key)), nil
+	return bulkString(key), nil
 }
 
 func handleGetdel(params internal.HandlerFuncParams) ([]byte, error) {
